@@ -108,6 +108,18 @@ func buildIntrinsics() map[string]intrinsic {
 		return res
 	}
 	m["(time.Time).Format"] = func(e *Exec, fn *ssa.Function, args []Value) Value {
+		// a concrete UTC instant and a concrete layout: the real formatter
+		if tv, ok := e.force(args[0]).(*StructV); ok && len(tv.F) == 3 && len(args) == 2 {
+			w, ok1 := e.force(tv.F[0]).(*BV)
+			x, ok2 := e.force(tv.F[1]).(*BV)
+			lp, ok3 := e.force(tv.F[2]).(*PtrV)
+			ly, ok4 := args[1].(*StrV)
+			if ok1 && ok2 && ok3 && ok4 && w.C != nil && x.C != nil && lp.O == nil && ly.C != nil && *w.C>>63 == 0 {
+				const unixToInternal = 62135596800
+				t := time.Unix(int64(*x.C)-unixToInternal, int64(*w.C&(1<<30-1))).UTC()
+				return cstr(t.Format(*ly.C))
+			}
+		}
 		e.stub("uf:time.Format")
 		return e.ufCall("time.Format", args, types.Typ[types.String])
 	}
